@@ -6,11 +6,33 @@ TITLE = "one verdict per announced client, then silence"
 OWN = {"P01_once"}
 
 
+def RT(nth):
+    """every nth behaviour is replayed a second time with a REAL 2 s request timeout: after all clients of a daemon process
+    have been withdrawn the driver waits past every deadline and takes an empty step, which must print nothing (a timer of a
+    finished / replaced request must never produce a verdict)"""
+    def pick(behaviours):
+        # re-announcements of an id that is still live first (the replaced request's timer is the interesting one),
+        # then a thin slice of everything else; selection only - every replay is judged by TLC like any other
+        def reann(b):
+            live = set()
+            for e in b:
+                if e["e"] == "C":
+                    if e["id"] in live:
+                        return True
+                    live.add(e["id"])
+                elif e["e"] in ("D", "T") and not e.get("st"):
+                    live.discard(e["id"])
+            return False
+        first = [b for b in behaviours if reann(b)]
+        return first[::max(1, len(first) // (12 * nth))] + behaviours[::nth * 4]
+    return [(pick, {"real_timeout": 2, "behaviours_per_process": 40})]
+
+
 def plans(ctx):
     if ctx.tier == "quick":
         # re-announcement of live ids, D/T after a verdict, replies (stale tags) after a verdict, junk
-        return [R.Plan("qr", "S_q1", emit_mod=100, max_inst=2, max_pw=1, stray=1, junk=True)]
-    return [R.Plan("qr", "S_q1", emit_mod=12, max_inst=2, max_pw=1, stray=2, junk=True),
+        return [R.Plan("qr", "S_q1", emit_mod=100, max_inst=2, max_pw=1, stray=1, junk=True, also=RT(25))]
+    return [R.Plan("qr", "S_q1", emit_mod=12, max_inst=2, max_pw=1, stray=2, junk=True, also=RT(40)),
             R.Plan("qr3", "S_t1d", emit_mod=20, max_inst=3, max_pw=1, stray=1),
             R.Plan("t1c", "S_t1c", emit_mod=12, max_inst=1, max_pw=2),
             R.Plan("two", "S_t1d", emit_mod=40, ids="Ids2", max_inst=1, max_pw=1),
